@@ -2,6 +2,7 @@ import CLModel.Proofs.Primary
 import CLModel.Model.Issuance
 import CLModel.Proofs.KeyProof
 import CLModel.Proofs.Guards
+import CLModel.Proofs.WitnessSig
 import Mathlib.Tactic.Linarith
 import Mathlib.Tactic.Abel
 import Mathlib.Data.ZMod.Basic
@@ -271,5 +272,59 @@ theorem key_proof_complete (H : List ByteArray → ℤ) (pk : PubKey G) (xz xzTi
     simp only [hb, if_true]
 
 end keyproof
+
+section revocation_signature
+open CL.NR CL.Reg
+
+variable {F : Type} [Field F] [DecidableEq F]
+
+/-- **the holder's check of the revocation part binds every field**
+    (`Prover::_test_witness_signature`, exponent form over the field `ℤ/r` of the pairing groups):
+    if the check accepts `(witness_signature.g_i, g_i, σ_i, u_i, σ, c, m2, vr'', witness)`, then it
+    refuses the same message with any ONE of the nine values replaced by a different one.
+    Side conditions: the key's generators `g, u, ĥ, h1, h2`, the accumulator, `pk·g_i`,
+    `y·ĥ^c` and `σ` are not the neutral element. -/
+theorem holder_nr_check_binds_every_field (k : RevKey F) (acc z wgI : F) (cr : Cred F)
+    (hg : k.g ≠ 0) (hu : k.u ≠ 0) (hh : k.hCap ≠ 0) (hh1 : k.h1 ≠ 0) (hh2 : k.h2 ≠ 0)
+    (hacc : acc ≠ 0) (hpk : k.pk + cr.gI ≠ 0) (hy : k.y + k.hCap * cr.c ≠ 0) (hs : cr.sigma ≠ 0)
+    (h : testWitnessSignature ringOps k acc z wgI cr = true) :
+    (∀ x, x ≠ wgI → testWitnessSignature ringOps k acc z x cr = false) ∧
+    (∀ x, x ≠ cr.gI → testWitnessSignature ringOps k acc z wgI { cr with gI := x } = false) ∧
+    (∀ x, x ≠ cr.sigmaI → testWitnessSignature ringOps k acc z wgI { cr with sigmaI := x } = false) ∧
+    (∀ x, x ≠ cr.uI → testWitnessSignature ringOps k acc z wgI { cr with uI := x } = false) ∧
+    (∀ x, x ≠ cr.sigma → testWitnessSignature ringOps k acc z wgI { cr with sigma := x } = false) ∧
+    (∀ x, x ≠ cr.c → testWitnessSignature ringOps k acc z wgI { cr with c := x } = false) ∧
+    (∀ x, x ≠ cr.m2 → testWitnessSignature ringOps k acc z wgI { cr with m2 := x } = false) ∧
+    (∀ x, x ≠ cr.vr2 → testWitnessSignature ringOps k acc z wgI { cr with vr2 := x } = false) ∧
+    (∀ x, x ≠ cr.omega → testWitnessSignature ringOps k acc z wgI { cr with omega := x } = false) :=
+  single_alteration_rejected k acc z wgI cr hg hu hh hh1 hh2 hacc hpk hy hs h
+
+/-- non-vacuity and completeness: what `Issuer::_new_non_revocation_credential` computes
+    (`issueCred`: `σ = (h0·h1^m2·h2^(vr'+vr'')·g_i)^(1/(x+c))`, `σ_i = g'^(1/(sk+γ^i))`,
+    `u_i = u^(γ^i)`, `g_i = g^(γ^i)`) passes the holder's check whenever the witness fits the
+    accumulator (the first equation is C08's witness theorem). -/
+theorem holder_nr_check_complete (k : RevKey F) (x sk γ : F) (i : ℕ) (m2 vr' vr2 c omega acc z : F)
+    (hpk : k.pk = k.g * sk) (hy : k.y = k.hCap * x) (hsk : sk + γ ^ i ≠ 0) (hx : x + c ≠ 0)
+    (hw : k.g * γ ^ i * acc - k.g * omega = z) :
+    testWitnessSignature ringOps k acc z (k.g * γ ^ i)
+      (issueCred ringOps (·⁻¹) k x sk γ i m2 vr' vr2 c omega) = true :=
+  issued_cred_passes k x sk γ i m2 vr' vr2 c omega acc z hpk hy hsk hx hw
+
+/-- the equations the two theorems above are about are the ones in the source: the four
+    `Pair::pair2` products of `_test_witness_signature`, regenerated from `src/prover.rs` on every
+    run, in this order and with these refusal tests (`witnessSigEqs` is their exponent form).
+    A dropped product, a dropped term or another test breaks this obligation. -/
+theorem witness_sig_equations_from_source : Gen.witnessSigPairings =
+    [["r_cred.witness_signature.g_i", "rev_reg.accum", "cred_rev_pub_key.g.neg()", "witness.omega.0",
+      "_!=rev_key_pub.z"],
+     ["cred_rev_pub_key.pk.add(r_cred.g_i)", "r_cred.witness_signature.sigma_i",
+      "cred_rev_pub_key.g.neg()", "cred_rev_pub_key.g_dash", "!_.is_unity()"],
+     ["r_cred.g_i", "cred_rev_pub_key.u", "cred_rev_pub_key.g.neg()", "r_cred.witness_signature.u_i",
+      "!_.is_unity()"],
+     ["r_cred.sigma", "cred_rev_pub_key.y.add(cred_rev_pub_key.h_cap.mul(r_cred.c))",
+      "cred_rev_pub_key.h0.add(cred_rev_pub_key.h1.mul(m2)).add(cred_rev_pub_key.h2.mul(r_cred.vr_prime_prime)).add(r_cred.g_i).neg()",
+      "cred_rev_pub_key.h_cap", "!_.is_unity()"]] := by decide
+
+end revocation_signature
 
 end CL.C05
